@@ -185,6 +185,8 @@ pub fn record(dir: &Path, cfg: &Cfg) -> Result<Recording, String> {
             run.snaps.push(s.text);
             run.ncmds.push(s.ncmds);
         }
+        // a clean reopen while only one root slot has ever been written (open wipes the other)
+        run.reopen()?;
         let mut key = 1u64;
         for round in 0..cfg.rounds {
             // a few local actions, with a delete of something that exists
